@@ -54,7 +54,11 @@ func (o *goSliceObject) setLength(value Value) {
 func (o *goSliceObject) setValue(index int64, value Value) bool {
 	reflectValue, err := value.toReflectValue(o.value.Type().Elem())
 	if err != nil {
-		panic(err)
+		panicConversionError(err)
+	}
+	if !reflectValue.IsValid() {
+		// undefined/null for an interface{} element
+		reflectValue = reflect.Zero(o.value.Type().Elem())
 	}
 
 	indexValue, exists := o.getValue(index)
